@@ -183,51 +183,42 @@ func InstrMethodKey(instr ssa.CallInstruction) fn.Optional[string] {
 	return fn.None[string]()
 }
 
-// FnReadsFrom returns true if an instruction in fn reads from val.
+// FnReadsFrom returns true if an instruction in fn may read from val.
 //
-//gocyclo:ignore
+// This is conservative: it returns true whenever val is an operand of some instruction of fn, except when val is used
+// exclusively in a write position, i.e. as the destination address of a store, the map of a map update or the channel
+// of a send (those uses are recognized by FnWritesTo). In particular, when val is the address of a global, indexing it,
+// slicing it, passing it to a call, boxing it in an interface or returning it are all considered reads, since the
+// content of the global may be read through the resulting value.
 func FnReadsFrom(fn *ssa.Function, val ssa.Value) bool {
+	var buf [10]*ssa.Value
 	for _, blk := range fn.Blocks {
 		for _, instr := range blk.Instrs {
 			switch instr := instr.(type) {
-			case *ssa.UnOp:
-				if instr.X == val {
-					return true
-				}
-			case *ssa.BinOp:
-				if instr.X == val || instr.Y == val {
-					return true
-				}
+			case *ssa.DebugRef:
+				// not a read
+				continue
 			case *ssa.Store:
-				// Special store
-				switch addr := instr.Addr.(type) {
-				case *ssa.FieldAddr:
-					if addr.X == val {
-						return true
-					}
-				}
-
+				// instr.Addr == val is a write
 				if instr.Val == val {
 					return true
 				}
+				continue
 			case *ssa.MapUpdate:
-				if instr.Value == val {
+				// instr.Map == val is a write
+				if instr.Key == val || instr.Value == val {
 					return true
 				}
+				continue
 			case *ssa.Send:
+				// instr.Chan == val is a write
 				if instr.X == val {
 					return true
 				}
-			case *ssa.Field:
-				if instr.X == val {
-					return true
-				}
-			case *ssa.FieldAddr:
-				if instr.X == val {
-					return true
-				}
-			case *ssa.Convert:
-				if instr.X == val {
+				continue
+			}
+			for _, op := range instr.Operands(buf[:0]) {
+				if op != nil && *op == val {
 					return true
 				}
 			}
